@@ -19,7 +19,7 @@ for variant, qt, seed in (('state', 'State', '{q}'), ('set', 'Set[State]', 'q'))
     contract(M, 'epsilon_closure', {'N': 'NFA', 'q': qt}, returns='Set[State]', variant=variant,
              requires=['nfa_wf(N)'],
              type_invariants=['fin(N.Q)', 'fin(seed0)', 'all(fin(lookup(N.delta, (x, b))) for x in atoms() for b in atoms())'],
-             ensures=['result == Eclo(N, seed0)'],
+             ensures=['result == Eclo(N, seed0)', 'result <= N.Q | seed0', 'fin(result)'],
              ghost={'seed0': seed}, loops=_ECLO_LOOP,
              theories=['word', 'nfa'], props=['C01', 'C03', 'C19'],
              note='total correctness; the finiteness of the set objects involved is a type invariant of Python sets (assumed at entry, not a precondition)')
@@ -48,18 +48,22 @@ _W = ['Sigma == N.Sigma', 'stateQ0 == name_of_set(Eclo(N, {N.q0}))', 'stateQ0 in
       'all((x in F) == (not set_of_name(x).isdisjoint(N.F)) for x in Q)',
       'all(name_of_set(todo[i]) in Q for i in range(len(todo)))',
       'all(x in Q and a in Sigma and ' + (_DELTA_OK % ('x', 'a', 'x', 'a', 'x', 'a')) + ' for (x, a) in delta)']
-contract(M, 'nfa_to_dfa', {'N': 'NFA'}, returns='DFA', requires=['nfa_wf(N)'],
+_PN = 'card(pow_names(N.Q) - Q)'
+contract(M, 'nfa_to_dfa', {'N': 'NFA'}, returns='DFA', requires=['nfa_wf(N)'], type_invariants=['fin(N.Q)'],
          ensures=['dfa_wf(result)', 'subset_struct(N, result)', 'all(Sreach(N, set_of_name(x)) for x in result.Q)',
                   'all(implies(over(N.Sigma, w), dfa_accepts(result, w) == nfa_accepts(N, w)) for w in allwords())',
                   'all(x in Reach(result, result.q0) for x in result.Q)'],
          types={'F': 'Set[State]', 'Q': 'Set[State]', 'delta': 'Map[(State,Symbol),State]', 'todo': 'List[Set[State]]', 'Q2': 'Set[State]'},
          pre_return_asserts=['all((x, a) in delta for x in Q for a in Sigma)'],
          asserts=['subset_struct(N, result)', 'all(implies(over(N.Sigma, w), dhat(result, result.q0, w) == name_of_set(Nhat(N, w)) and dhat(result, result.q0, w) in result.Q) for w in allwords())'],
-         loops={1: {'invariant': _W + ['all(any(name_of_set(todo[i]) == x for i in range(len(todo))) or all((x, a) in delta for a in Sigma) for x in Q)']},
+         # termination: every state added to Q is the name of a subset of N.Q that was not in Q (finitely many), and a round that adds none shortens the work list
+         loops={1: {'invariant': _W + ['all(any(name_of_set(todo[i]) == x for i in range(len(todo))) or all((x, a) in delta for a in Sigma) for x in Q)'],
+                    'snapshot': {'c0': _PN, 'l0': 'len(todo)'}, 'decreases': [_PN, 'len(todo)']},
                 2: {'ghost': 'doneS', 'invariant': _W + ['stateQ1 in Q', 'stateQ1 == name_of_set(Q1)', 'Q1 == set_of_name(stateQ1)',
                                                         'all(x == stateQ1 or any(name_of_set(todo[i]) == x for i in range(len(todo))) or all((x, a) in delta for a in Sigma) for x in Q)',
-                                                        'all((stateQ1, a) in delta for a in doneS)']},
-                3: {'ghost': 'doneQ1', 'invariant': ['Q2 == move(N, doneQ1, a)']}},
+                                                        'all((stateQ1, a) in delta for a in doneS)',
+                                                        _PN + ' <= c0', 'implies(' + _PN + ' == c0, len(todo) == l0 - 1)']},
+                3: {'ghost': 'doneQ1', 'invariant': ['Q2 == move(N, doneQ1, a)', 'Q2 <= N.Q']}},
          theories=['nfa', 'subset'], props=['C03', 'C19', 'C13'])
 
 # ---------------------------------------------------------------------------------------------- C18
